@@ -154,16 +154,40 @@ def compare(cfg, market, handler):
         fails.append({'clause': 'C08.fills', 'detail': {'n_impl': len(got), 'n_ref': len(ref.fills),
                                                         'impl': [str(x) for x in got[:4]], 'ref': [str((str(f[0]), f[1], f[2], float(f[3]), float(f[4]))) for f in ref.fills[:4]]}})
     else:
-        for g, r in zip(got, ref.fills):
-            if g[0] != r[0] or g[1] != r[1] or not close(g[2], r[2]):
-                fails.append({'clause': 'C08.fills', 'detail': {'impl': str(g), 'ref': str((str(r[0]), r[1], r[2], float(r[3]), float(r[4])))}})
+        # fills of one instant are compared as a set; their sequence within the instant is fixed by the statement only
+        # as "sells first" (for orders sized at the open itself - buy and hold - the library fills in list order, the
+        # reference does the same, and sells-first is accepted as well: the statement does not choose)
+        def groups(fl):
+            out = []
+            for f in fl:
+                if out and out[-1][0] == f[0]:
+                    out[-1][1].append(f)
+                else:
+                    out.append((f[0], [f]))
+            return out
+        gg, rg = groups(got), groups(ref.fills)
+        if [t for t, _ in gg] != [t for t, _ in rg] or [len(x) for _, x in gg] != [len(x) for _, x in rg]:
+            fails.append({'clause': 'C08.fills', 'detail': {'impl_instants': [(str(t), len(x)) for t, x in gg][:6],
+                                                            'ref_instants': [(str(t), len(x)) for t, x in rg][:6]}})
+        for (t, gi), (_, ri) in zip(gg, rg):
+            if fails:
                 break
-            if not close(g[3], r[3]):
-                fails.append({'clause': 'C08.fill_price', 'detail': {'impl': str(g), 'ref_price': float(r[3])}})
+            same_order = [x[1] for x in gi] == [x[1] for x in ri]
+            sells_first = all(not (a[2] > 0 and b[2] < 0) for i, a in enumerate(gi) for b in gi[i + 1:])
+            if not (same_order or sells_first):
+                fails.append({'clause': 'C08.fills', 'detail': {'instant': str(t), 'order_within_instant': [(x[1], x[2]) for x in gi],
+                                                                'ref': [(x[1], x[2]) for x in ri]}})
                 break
-            if not close(g[4], r[4]):
-                fails.append({'clause': 'C08.fill_commission', 'detail': {'impl': str(g), 'ref_commission': float(r[4])}})
-                break
+            for g, r in zip(sorted(gi, key=lambda x: (x[1], x[2])), sorted(ri, key=lambda x: (x[1], x[2]))):
+                if g[1] != r[1] or not close(g[2], r[2]):
+                    fails.append({'clause': 'C08.fills', 'detail': {'impl': str(g), 'ref': str((str(r[0]), r[1], r[2], float(r[3]), float(r[4])))}})
+                    break
+                if not close(g[3], r[3]):
+                    fails.append({'clause': 'C08.fill_price', 'detail': {'impl': str(g), 'ref_price': float(r[3])}})
+                    break
+                if not close(g[4], r[4]):
+                    fails.append({'clause': 'C08.fill_commission', 'detail': {'impl': str(g), 'ref_commission': float(r[4])}})
+                    break
     if not fails:
         if not close(obs.cash, ref.cash):
             fails.append({'clause': 'C08.final_cash', 'detail': {'impl': obs.cash, 'ref': float(ref.cash)}})
